@@ -428,6 +428,24 @@ func (eng *Engine) buildVCq(fn *ssa.Function, ct *Contract, qf int) (vc *VC, err
 		}
 	}
 	// postconditions at each return
+	afterUsed := map[*Clause]bool{}
+	if ct != nil {
+		for _, cl := range ct.Ensures {
+			if cl.After == "" {
+				continue
+			}
+			any := false
+			for _, r := range f.rets {
+				if dominatedByCallTo(r.blk, cl.After) {
+					any = true
+				}
+			}
+			if !any {
+				o := f.obligeAt("true", "stale", "ensures-after."+cl.After+"."+cl.Label, cl.Props, "false", fn.Pos())
+				o.Src = "the contract has an 'ensures after " + cl.After + "' clause but no return is dominated by a call to it: contract stale"
+			}
+		}
+	}
 	for ri, r := range f.rets {
 		tag := ""
 		if len(f.rets) > 1 {
@@ -440,6 +458,13 @@ func (eng *Engine) buildVCq(fn *ssa.Function, ct *Contract, qf int) (vc *VC, err
 			// clauses are checked in order; each may use the ones before it (they are proved first)
 			Rk := r.R
 			for _, cl := range ct.Ensures {
+				if cl.After != "" {
+					// 'ensures after callee': only at the returns every path to which goes through a call to callee
+					if !dominatedByCallTo(r.blk, cl.After) {
+						continue
+					}
+					afterUsed[cl] = true
+				}
 				c := penv.trBool(cl.Expr)
 				o := f.obligeAt(Rk, "post", cl.Label+tag, cl.Props, c, r.pos)
 				o.Src = cl.Src
@@ -756,4 +781,26 @@ func (eng *Engine) checkImmutables() []string {
 	}
 	sort.Strings(out)
 	return out
+}
+
+// dominatedByCallTo reports whether block b, or one of its dominators, contains a call to a function or method named callee.
+func dominatedByCallTo(b *ssa.BasicBlock, callee string) bool {
+	for d := b; d != nil; d = d.Idom() {
+		for _, ins := range d.Instrs {
+			c, ok := ins.(*ssa.Call)
+			if !ok {
+				continue
+			}
+			cn := ""
+			if c.Call.IsInvoke() {
+				cn = c.Call.Method.Name()
+			} else if sc := c.Call.StaticCallee(); sc != nil {
+				cn = sc.Name()
+			}
+			if cn == callee {
+				return true
+			}
+		}
+	}
+	return false
 }
